@@ -267,11 +267,16 @@ class UAIReader(object):
             model.add_edges_from(self.edges)
 
             tabular_cpds = []
-            for child_var, values in self.tables:
+            parsed = self.grammar.parseString(self.network)
+            for function, (child_var, values) in enumerate(self.tables):
                 states = int(self.domain[child_var])
                 values = np.fromiter(values, dtype=float)
                 values = values.reshape(states, values.size // states)
-                parents = list(model.predecessors(child_var))
+                # As in UAIWriter, the scope lists the evidence of the table in
+                # reverse order, followed by the child variable.
+                scope = parsed["fun_" + str(function)]
+                scope = [scope] if isinstance(scope, int) else scope
+                parents = ["var_" + str(var) for var in scope[-2::-1]]
                 if len(parents) == 0:
                     tabular_cpds.append(TabularCPD(child_var, states, values))
                 else:
